@@ -182,7 +182,14 @@ class FakeNet:
         ans = self.script(seen)
         seen.answer = ans
         if ans.transport_error:
-            raise urllib.error.URLError("fake transport failure")
+            # the request was delivered (it is in the log); what fails is the answer.  The three shapes a transport
+            # failure takes in urllib: wrapped (URLError), a bare read timeout, a connection reset.
+            k = n % 3
+            if k == 0:
+                raise urllib.error.URLError("fake transport failure")
+            if k == 1:
+                raise socket.timeout("The read operation timed out")
+            raise ConnectionResetError(104, "Connection reset by peer")
         raw = "".join("Set-Cookie: %s\r\n" % c for c in ans.cookies)
         raw += "Content-Type: application/x-ofx\r\nContent-Length: %d\r\n\r\n" % len(ans.body)
         import http.client
